@@ -487,6 +487,12 @@ func (e *env) exec1(f []string, line string) bool {
 		if !ok || !ok2 || n.Sign() < 0 {
 			return false
 		}
+		// guard: no funds to an object that self-destructed in this transaction. The deleted object keeps that balance
+		// in the live cache and a later CreateAccount of the same address carries it over (createObject takes the
+		// deleted object as prev), which a copy / reopened state cannot do: hidden state outside the enumeration
+		if f[0] != "SN" && n.Sign() > 0 && st.HasSuicided(a) {
+			return false
+		}
 		switch f[0] {
 		case "SB":
 			st.SetBalance(a, n)
@@ -574,8 +580,8 @@ func (e *env) exec1(f []string, line string) bool {
 		st.UpdateDelegator(a, v, d, f[4] == "1")
 		e.acct(a)
 	case "DG":
-		// the staking module's path: StateDB.UpdateDelegation(d, val, tokenChanged); the model receives the
-		// equivalent UV + UD pair with the resulting record
+		// the staking module's path: StateDB.UpdateDelegation(d, val, tokenChanged); the model computes the record
+		// (sorted insert into the delegation list, stake arithmetic) and the delegator's list itself
 		if len(f) != 4 {
 			return false
 		}
@@ -586,7 +592,7 @@ func (e *env) exec1(f []string, line string) bool {
 			return false
 		}
 		val := st.GetValidatorByMainAddr(va)
-		if val == nil || !st.Exist(d) {
+		if val == nil {
 			return false
 		}
 		if amt.Sign() < 0 {
@@ -601,16 +607,10 @@ func (e *env) exec1(f []string, line string) bool {
 				return false
 			}
 		}
-		nv, _, _, status := st.UpdateDelegation(d, val, amt)
+		st.UpdateDelegation(d, val, amt)
 		e.acct(d)
+		e.w.vals[va] = true
 		e.touchedVal = true
-		e.lean("UV " + hx(va[:]) + " " + valFields(nv))
-		del := "0"
-		if status == params.Delete {
-			del = "1"
-		}
-		e.lean("UD " + hx(d[:]) + " " + hx(va[:]) + " " + amt.String() + " " + del)
-		return true
 	case "CV":
 		if len(f) != 14 {
 			return false
@@ -659,8 +659,8 @@ func (e *env) exec1(f []string, line string) bool {
 		e.touchedVal = true
 	case "VD":
 		// the in-place pattern the staking module used on PartialCopy()s (which share the Delegations slice with the
-		// stored record): edit the delegation list of a partial copy, then UpdateValidator. The model receives the
-		// resulting record; if a Copy() shares the list's backing array, the other side sees this edit.
+		// stored record): edit the delegation list of a partial copy, then UpdateValidator. The model computes the sorted
+		// insert itself; if a Copy() shares the list's backing array, the other side sees this edit.
 		if len(f) != 4 {
 			return false
 		}
@@ -678,8 +678,6 @@ func (e *env) exec1(f []string, line string) bool {
 		nv.UpdateDelegationFrom(&state.DelegationFrom{Delegator: d, Stake: params.YOUToStake(t), Token: t})
 		st.UpdateValidator(nv, old)
 		e.touchedVal = true
-		e.lean("UV " + hx(a[:]) + " " + valFields(nv))
-		return true
 	case "SR":
 		if len(f) != 4 {
 			return false
@@ -907,6 +905,31 @@ func (e *env) checkFrozen() {
 	e.frozen = nil
 }
 
+// checkDelegationLists: every validator's delegation list is strictly sorted by delegator and the binary search the
+// node uses (GetDelegationFrom) finds every entry of it.
+func (e *env) checkDelegationLists(st *state.StateDB, what string) {
+	if p := guarded(func() {
+		for _, a := range sortedAddrs(e.w.vals) {
+			v := st.GetValidatorByMainAddr(a)
+			if v == nil {
+				continue
+			}
+			for i, d := range v.Delegations {
+				if i > 0 && bytes.Compare(v.Delegations[i-1].Delegator[:], d.Delegator[:]) >= 0 {
+					e.fail("oracle", "%s: delegation list of validator %s is not sorted at position %d", what, hx(a[:]), i)
+					return
+				}
+				if f := v.GetDelegationFrom(d.Delegator); f == nil || f.Token.Cmp(d.Token) != 0 {
+					e.fail("oracle", "%s: validator %s: delegator %s is in the list but the lookup does not find it", what, hx(a[:]), hx(d.Delegator[:]))
+					return
+				}
+			}
+		}
+	}); p != nil {
+		e.fail("oracle", "%s: delegation lookup panics: %v", what, p)
+	}
+}
+
 // ---- Commit + New ------------------------------------------------------------------------------------------------
 
 func (e *env) doReopen(disk, del bool, line string) {
@@ -943,6 +966,8 @@ func (e *env) doReopen(disk, del bool, line string) {
 	if o := observe(e.w, re, false); o != live {
 		e.fail("oracle", "reopened state differs from the live object after Commit (disk=%v):\n live    =%s\n reopened=%s", disk, live, o)
 	}
+	e.checkDelegationLists(e.st, "live object after Commit")
+	e.checkDelegationLists(re, "reopened state")
 	// the validator-only reader opened from the validator root shows the same validators and statistics
 	vr, err := state.NewVldReader(r1, db, true)
 	if err != nil {
